@@ -144,3 +144,131 @@ func H_script_hist() {
 	symx.Assert(string(rec.body) == string(m.body), "script: body is the concatenation of the writes")
 	symx.Reach("end")
 }
+
+// H_onerror: a handler performs up to two response operations and then throws; the server's
+// onError callback answers with a status and a body. Whatever the handler did before throwing,
+// the underlying connection sees at most one header commit, the status on the wire is the one
+// pending at the first commit, and the body is the concatenation of all writes.
+func H_onerror() {
+	k := symx.Param("k", 2)
+	names := [4]string{"0", "1", "2", "3"}
+	body := ""
+	m := &model{pending: 200}
+	for s := 0; s < k; s++ {
+		op := symx.Choose("op"+names[s], 4)
+		code := symx.IntRange("code"+names[s], 100, 999)
+		codes[s] = code
+		switch op {
+		case 0:
+			body += "  $w->status(code(" + names[s] + "));\n"
+			if !m.committed {
+				m.pending, m.statusSet = code, true
+			}
+		case 1:
+			body += "  $w->write(\"a\");\n"
+			m.commit(m.pending)
+			m.body = append(m.body, 'a')
+		case 2:
+			body += "  $w->header(\"X-A\", \"1\");\n"
+			m.live[0] = "1"
+		case 3:
+			// nothing
+		}
+	}
+	ecode := symx.IntRange("ecode", 100, 999)
+	codes[3] = ecode
+	// the error callback: status(ecode); write("E")
+	if !m.committed {
+		m.pending, m.statusSet = ecode, true
+	}
+	m.commit(m.pending)
+	m.body = append(m.body, 'E')
+
+	sx.Builtins = []func() data.FuncStmt{func() data.FuncStmt { return &codeFn{} }}
+	sc := sx.Compile("function handler($r, $w) {\n" + body + "  throw new Exception(\"boom\");\n}\nfunction onerr($r, $w, $e) {\n  $w->status(code(3));\n  $w->write(\"E\");\n}\n")
+	symx.Assert(sc.Err == nil, "scripts parse")
+	if sc.Err != nil {
+		return
+	}
+	sc.Run()
+	hf, ok1 := sc.VM.GetFunc("handler")
+	ef, ok2 := sc.VM.GetFunc("onerr")
+	symx.Assert(ok1 && ok2, "handler and error callback defined")
+	if !ok1 || !ok2 {
+		return
+	}
+	ctx := sc.VM.CreateContext(sc.Vars)
+	rec := &recorder{hdr: http.Header{}}
+	chain := ohttp.VerifWithErrorHandler(ef, ctx, ohttp.Handler{Value: hf, Ctx: ctx})
+	chain.ServeHTTP(rec, &http.Request{Method: "GET", URL: &url.URL{Path: "/"}, Header: http.Header{}})
+	symx.Assert(rec.commits <= 1, "onError: the connection sees at most one header commit")
+	symx.Assert(rec.commits == 0 || rec.code == m.code, "onError: status on the wire is the one pending at the first commit")
+	symx.Assert(string(rec.body) == string(m.body), "onError: body is the concatenation of the handler's and the callback's writes")
+	symx.Reach("end")
+}
+
+// H_layers: the same commit-once model when the operations are spread over two nested layers — a
+// closure middleware (operations before and after $next()) around the route handler. The response
+// is one object for the whole request: a status set by the handler without a body is still
+// pending when the middleware continues after $next(), and is committed when the outermost layer
+// returns.
+func H_layers() {
+	names := [4]string{"0", "1", "2", "3"}
+	m := &model{pending: 200}
+	gen := func(slot int) string {
+		op := symx.Choose("op"+names[slot], 4)
+		code := symx.IntRange("code"+names[slot], 100, 999)
+		codes[slot] = code
+		switch op {
+		case 0:
+			if !m.committed {
+				m.pending, m.statusSet = code, true
+			}
+			return "  $w->status(code(" + names[slot] + "));\n"
+		case 1:
+			m.commit(m.pending)
+			m.body = append(m.body, 'a'+byte(slot))
+			return "  $w->write(\"" + string(rune('a'+slot)) + "\");\n"
+		case 2:
+			m.live[0] = names[slot]
+			return "  $w->header(\"X-A\", \"" + names[slot] + "\");\n"
+		}
+		return ""
+	}
+	pre := gen(0)
+	h := gen(1)
+	post := gen(2) + gen(3)
+	if !m.committed && m.statusSet {
+		m.commit(m.pending)
+	}
+	sx.Builtins = []func() data.FuncStmt{func() data.FuncStmt { return &codeFn{} }}
+	sc := sx.Compile("function mw($r, $w, $next) {\n" + pre + "  $next($r, $w);\n" + post + "}\nfunction handler($r, $w) {\n" + h + "}\n")
+	symx.Assert(sc.Err == nil, "scripts parse")
+	if sc.Err != nil {
+		return
+	}
+	sc.Run()
+	hf, ok1 := sc.VM.GetFunc("handler")
+	mf, ok2 := sc.VM.GetFunc("mw")
+	symx.Assert(ok1 && ok2, "handler and middleware defined")
+	if !ok1 || !ok2 {
+		return
+	}
+	ctx := sc.VM.CreateContext(sc.Vars)
+	wrap, err := ohttp.VerifNewMiddleware(mf, ctx)
+	symx.Assert(err == nil, "middleware accepted")
+	if err != nil {
+		return
+	}
+	rec := &recorder{hdr: http.Header{}}
+	wrap(ohttp.Handler{Value: hf, Ctx: ctx}).ServeHTTP(rec, &http.Request{Method: "GET", URL: &url.URL{Path: "/"}, Header: http.Header{}})
+	symx.Assert(len(sx.Uncaught) == 0, "layers: no throw")
+	symx.Assert(rec.commits <= 1, "layers: at most one header commit")
+	symx.Assert(rec.commits == m.commits, "layers: commit count")
+	if m.committed && rec.commits == 1 {
+		symx.Assert(rec.code == m.code, "layers: client receives the last status set before the first body byte, whichever layer set it")
+		symx.Assert(rec.sent[0] == m.sent[0], "layers: headers set before the commit reach the client")
+	}
+	symx.Assert(string(rec.body) == string(m.body), "layers: body is the concatenation of the writes")
+	symx.Reach("end")
+}
